@@ -8,6 +8,7 @@ import (
 	"bytes"
 	"database/sql"
 	"database/sql/driver"
+	"encoding/base64"
 	"fmt"
 	"io"
 	"math"
@@ -574,6 +575,71 @@ func Run(r *rep.Run) {
 						cl = "value"
 					}
 					r.Violate(sigBase+"/"+cl, "decoded value equals the phase-one value under the executors' equality", cs, d)
+				}
+			}
+		}
+	}
+
+	// 3b. payload sweep: incompressible (pseudo-random) and highly compressible payloads of growing size under every real
+	// compressor - what phase one accepts and stores, rollback must read back (an accepted write that cannot be read is
+	// the failure; a compressor that refuses the payload fails phase one, which is allowed and counted)
+	{
+		entropy := func(n int) []byte {
+			out := make([]byte, n)
+			x := uint64(0x9E3779B97F4A7C15)
+			for i := range out {
+				x ^= x << 13
+				x ^= x >> 7
+				x ^= x << 17
+				out[i] = byte(x >> 32)
+			}
+			return out
+		}
+		sizes := []int{1 << 10, 12 << 10, 48 << 10, 200 << 10}
+		for _, ser := range serializers {
+			for _, comp := range []string{"Gzip", "Zip", "Bzip2", "Lz4", "Deflate", "Zstd"} {
+				for _, n := range sizes {
+					for _, kind := range []string{"random-blob", "random-base64-text", "zeros-blob"} {
+						var col types.ColumnImage
+						switch kind {
+						case "random-blob":
+							col = types.ColumnImage{ColumnName: colName("LONGBLOB", 1), ColumnType: types.JDBCTypeLongVarBinary, Value: entropy(n)}
+						case "random-base64-text":
+							col = types.ColumnImage{ColumnName: colName("LONGTEXT", 1), ColumnType: types.JDBCTypeLongVarchar, Value: base64.StdEncoding.EncodeToString(entropy(n * 3 / 4))}
+						case "zeros-blob":
+							col = types.ColumnImage{ColumnName: colName("LONGBLOB", 1), ColumnType: types.JDBCTypeLongVarBinary, Value: make([]byte, n)}
+						}
+						row := types.RowImage{Columns: []types.ColumnImage{idCol(1), col}}
+						before := mkImage(types.SQLTypeUpdate, []types.RowImage{row})
+						after := mkImage(types.SQLTypeUpdate, []types.RowImage{row})
+						cs := caseDesc{Serializer: ser, Compress: comp, SQLType: "UPDATE", Rows: 1, Column: col.ColumnName, MySQLType: kind, Driver: fmt.Sprintf("%d bytes", n)}
+						dec, _, _, errs := flushDecode(ser, comp, types.SQLTypeUpdate, before, after)
+						r.Eval(true)
+						r.Count("payload_cases", 1)
+						sigBase := fmt.Sprintf("payload/%s/%s/%s/%d", ser, comp, kind, n)
+						if strings.HasPrefix(errs, "flush error") {
+							r.Count("payload_refused_by_phase_one", 1) // nothing was stored: phase one fails, nothing to read back
+							continue
+						}
+						if errs != "" {
+							r.Violate(sigBase+"/"+errClass(errs), "what phase one writes, rollback can read", cs, errs)
+							continue
+						}
+						if dec == nil || len(dec.Logs) != 1 {
+							r.Violate(sigBase+"/logs", "what phase one writes, rollback can read", cs, fmt.Sprintf("decoded log: %+v", dec))
+							continue
+						}
+						d := compareImage("before", before, dec.Logs[0].BeforeImage)
+						if d == "" {
+							d = compareImage("after", after, dec.Logs[0].AfterImage)
+						}
+						if d != "" {
+							if len(d) > 300 {
+								d = d[:300] + "..."
+							}
+							r.Violate(sigBase+"/value", "decoded value equals the phase-one value under the executors' equality", cs, d)
+						}
+					}
 				}
 			}
 		}
